@@ -415,7 +415,7 @@ def cases(rng, tier):
             for b in DTS:
                 add_astype(rng, add, ('leaf', a), b, flat=True)
 
-    n = 1000 if quick else 24000
+    n = 1250 if quick else 26000
     kinds = ['same'] * 3 + ['vary'] * 4 + ['boolnum'] * 2 + ['optmix'] * 2 + ['records'] * 2 + ['regular'] * 2 + \
             ['different'] * 3 + ['ndnumpy']
     for _ in range(n):
@@ -732,7 +732,9 @@ def run(cases, tier, rng):
     tab = run_mergerun(['(t promotion-table)']).get('t', '')
     rows = re.findall(r'\((\S+) (\S+) (\S+) (\S+)\)', tab)
     ok, why, ver = numpy_voter(rows) if len(rows) == 121 else (False, 'promotion table not produced', None)
-    extra = dict(numpy_version=ver, promotion_pairs_compared=len(rows))
+    extra = dict(numpy_version=ver, promotion_pairs_compared=len(rows),
+                 checker_cmd='cd /verif/c08/coq && make -f Makefile.coq (coqc -R /verif/coq AwkV -R . AwkMerge Props_C08.v); '
+                             'make -C /verif/c08/ocaml; bin/check C08 --tier %s' % tier)
     if ok is None:
         # numpy unavailable: the obligation cannot be discharged on this run
         per_op['corr:numpy-lattice-transcription'] = False
